@@ -66,6 +66,7 @@ def play(args):
     L = Link(dev)
     ev = []
     fed = False
+    nfail = [idx]
     try:
         i = 0
         while i < len(acts):
@@ -85,6 +86,10 @@ def play(args):
             group = acts[i:j]
             plan = [("hold" if g["a"] == "DialBegin" else "okerr" if g.get("okerr") else g["ok"]) for g in group
                     if g["a"] in ("Attempt", "DialBegin")]
+            if dev == "tcp" and fl == "sync":
+                # a failed dial is refused or times out (the threaded loop has a branch for each; the wait is the same)
+                nfail[0] += 1
+                plan = [("timeout" if (x is False and (nfail[0] + k) % 2) else x) for k, x in enumerate(plan)]
             name = a["a"]
             if name in ("ReadError", "WriteError", "PeerClose", "Answer") and not L.live():
                 break          # the real system has no live connection here: it diverged earlier (already recorded)
